@@ -35,7 +35,12 @@
    Not decided: the order of packets inside a step and the order of calls; packet ids (only: fresh, non-zero iff QoS>0);
    the RETAIN flag and the subscription identifier of a retained REPLAY (other properties); the reason code in the ack of
    an accepted or dropped PUBLISH (0x00 / 0x10); PUBCOMP; the session-present flag of an accepted CONNECT; the reason
-   argument of on_session_terminated, the error argument of on_closed, an on_closed for a refused connection. *)
+   argument of on_session_terminated, the error argument of on_closed, an on_closed for a refused connection.
+
+   Known finding (returned as kf only when every failure of the scenario is of this class, everything else stays strict):
+     kf_connack3_carries_v5_code   a 3.1 / 3.1.1 CONNECT refused by the hook with a v5 reason code (>= 0x80) is answered
+                                   with return code 0x87 (135), which is not a 3.x return code (sendErrConnack overrides
+                                   with codes.NotAuthorized instead of codes.V3NotAuthorized = 5). *)
 open Conv
 
 exception Oof of string (* outside the family: no verdict *)
@@ -45,7 +50,7 @@ type sub = { s_full : string; s_share : string option; s_filter : string; s_qos 
 type state = Live | Rejected | Dead
 type sock = {
   label : int; ver : int; cid : string; is_obs : bool; mutable st : state; will : msg option; e : int;
-  mutable disc : int option; mutable q2 : int list; mutable pids : int list; mutable quiet_from : int }
+  mutable disc : int option; mutable pids : int list; mutable quiet_from : int }
 
 (* mutation switches for testing the oracle itself (O_C14_MUT=n): 1 a rejected subscription is installed, 2 the hook's
    granted QoS is ignored (requested QoS), 3 a rejected / dropped PUBLISH is delivered, 4 a rewrite is ignored, 5 a dropped
@@ -103,6 +108,9 @@ let oracle_run (cfg : Model.cfg) (hooks : Model.hooks) (steps : Sexp.t list)
   let refused_subs : (string, sub list) Hashtbl.t = Hashtbl.create 4 in  (* what the hook rejected (coverage, mutant 1) *)
   let sessions : (string, int) Hashtbl.t = Hashtbl.create 4 in           (* client id -> session expiry *)
   let retained : (string, msg) Hashtbl.t = Hashtbl.create 4 in
+  let q2tbl : (string, int list) Hashtbl.t = Hashtbl.create 4 in         (* session -> QoS 2 packet ids received, PUBREL outstanding *)
+  let q2_of cid = try Hashtbl.find q2tbl cid with Not_found -> [] in
+  let q2_add cid pid = if not (List.mem pid (q2_of cid)) then Hashtbl.replace q2tbl cid (pid :: q2_of cid) in
   let owed : (string, int) Hashtbl.t = Hashtbl.create 32 in
   let optional : (string, int) Hashtbl.t = Hashtbl.create 4 in
   let received : (string, int) Hashtbl.t = Hashtbl.create 32 in          (* PUBLISH packets clients received, as on_delivered keys *)
@@ -170,7 +178,6 @@ let oracle_run (cfg : Model.cfg) (hooks : Model.hooks) (steps : Sexp.t list)
     !obl in
 
   let step_obl : (int * string list) list list ref = ref [] in
-  let ended_now : int list ref = ref [] in
   let store_retained (m : msg) =
     if m.mr then begin
       if m.mp = "x" then (hit "Rc"; Hashtbl.remove retained m.mt) else Hashtbl.replace retained m.mt m
@@ -179,7 +186,6 @@ let oracle_run (cfg : Model.cfg) (hooks : Model.hooks) (steps : Sexp.t list)
   (* ---- the end of an accepted network connection *)
   let end_conn (s : sock) =
     s.st <- Dead;
-    ended_now := s.label :: !ended_now;
     owe "on_closed" [Sexp.A s.cid; Sexp.A "_"];
     let suppressed = (match s.disc with Some 0 -> true | Some 4 -> false | Some _ -> raise (Oof "disconnect code") | None -> false) in
     (match s.will with
@@ -201,6 +207,7 @@ let oracle_run (cfg : Model.cfg) (hooks : Model.hooks) (steps : Sexp.t list)
      | None -> ());
     if s.e = 0 then begin
       Hashtbl.remove sessions s.cid;
+      Hashtbl.remove q2tbl s.cid;
       owe "on_session_terminated" [Sexp.A s.cid; Sexp.A "_"]
     end in
 
@@ -209,7 +216,6 @@ let oracle_run (cfg : Model.cfg) (hooks : Model.hooks) (steps : Sexp.t list)
 
   let step_one k step (ob : (int * Sexp.t list * bool) list) (rw : Sexp.t) =
     step_obl := [];
-    ended_now := [];
     let entries = match rw with Sexp.L (Sexp.A "s" :: es) -> es | _ -> raise (Oof "raw step") in
     if List.mem (Sexp.L [Sexp.A "hang"]) entries || List.mem (Sexp.L [Sexp.A "aborted"]) entries then raise (Oof "hang");
     if List.mem (Sexp.L [Sexp.A "skipped"]) entries then raise (Oof "skipped");
@@ -261,7 +267,7 @@ let oracle_run (cfg : Model.cfg) (hooks : Model.hooks) (steps : Sexp.t list)
        let e =
          if ver = 5 then (match prop_int "sei" props with Some v -> min v cfg_se | None -> 0)
          else if clean then 0 else cfg_se in
-       let mk st = { label = l; ver; cid; is_obs; st; will; e; disc = None; q2 = []; pids = []; quiet_from = k + 1 } in
+       let mk st = { label = l; ver; cid; is_obs; st; will; e; disc = None; pids = []; quiet_from = k + 1 } in
        if code <> 0 then begin
          (* clause A: refused *)
          if not enhanced then hit "Cr";
@@ -282,7 +288,7 @@ let oracle_run (cfg : Model.cfg) (hooks : Model.hooks) (steps : Sexp.t list)
                 (Printf.sprintf "A: CONNECT (MQTT %s) on socket %d refused by the hook with code %d, CONNACK carries %d" (if ver = 5 then "5" else "3.x") l code got);
             if sp then set_fail k (Printf.sprintf "A: refused CONNECT on socket %d answered with session present" l));
          Hashtbl.replace socks l (mk Rejected);
-         if mutant = 9 then (match old with Some (_, o) -> end_conn o | None -> ())
+         if mutant = 9 then (match old with Some (_, o) when open_of o.label -> set_fail k "mutant: the refused CONNECT should have taken the live connection over" | _ -> ())
        end else begin
          (match connack with
           | Some (_, 0) -> ()
@@ -301,9 +307,10 @@ let oracle_run (cfg : Model.cfg) (hooks : Model.hooks) (steps : Sexp.t list)
          if Hashtbl.mem sessions cid then begin
            if clean then begin
              owe "on_session_terminated" [Sexp.A cid; Sexp.A "_"];
-             owe "on_session_created" [Sexp.A cid]
+             owe "on_session_created" [Sexp.A cid];
+             Hashtbl.remove q2tbl cid
            end else (hit "Sr_"; owe "on_session_resumed" [Sexp.A cid])
-         end else owe "on_session_created" [Sexp.A cid];
+         end else (owe "on_session_created" [Sexp.A cid]; Hashtbl.remove q2tbl cid);
          Hashtbl.replace sessions cid e;
          if is_obs && Hashtbl.mem subs cid then raise (Oof "observer reconnects");
          Hashtbl.replace socks l (mk Live)
@@ -399,9 +406,9 @@ let oracle_run (cfg : Model.cfg) (hooks : Model.hooks) (steps : Sexp.t list)
                     if s.ver = 5 && not (ok code) then set_fail k (Printf.sprintf "C: %s for packet %d on socket %d carries reason code %d, expected %s" kind pid l code what)
                   | [] -> set_fail k (Printf.sprintf "C: no %s for packet %d on socket %d" want_kind pid l)
                   | _ -> set_fail k (Printf.sprintf "C: wrong acknowledgements for packet %d on socket %d" pid l)) in
-             if q = 2 && List.mem pid s.q2 && mutant <> 7 then begin
-               (* a retransmission of a message whose PUBREL is outstanding: not a new event *)
-               if not (bool_of_sx dup) then raise (Oof "QoS 2 packet id reused without DUP");
+             if q = 2 && List.mem pid (q2_of s.cid) && mutant <> 7 then begin
+               (* the packet id of a message whose PUBREL is outstanding (also from before a session resumption): not a new event *)
+               ignore dup;
                hit "Q2";
                check_ack (fun _ -> true) ""
              end else begin
@@ -411,7 +418,7 @@ let oracle_run (cfg : Model.cfg) (hooks : Model.hooks) (steps : Sexp.t list)
                let go (m' : msg) =
                  store_retained (if mutant = 8 then m else m');
                  step_obl := !step_obl @ deliver m' s.cid;
-                 if q = 2 && not (List.mem pid s.q2) then s.q2 <- pid :: s.q2;
+                 if q = 2 then q2_add s.cid pid;
                  check_ack (fun c -> c = 0 || c = 16) "0 or 16" in
                (match verdict with
                 | Model.MReject c ->
@@ -419,13 +426,13 @@ let oracle_run (cfg : Model.cfg) (hooks : Model.hooks) (steps : Sexp.t list)
                   hit "Mj"; if would () then hit "Mj+"; if m.mr then hit "MjR";
                   if mutant = 3 then go m else begin
                     (* a v5 PUBREC with a failure code ends the exchange; a 3.x PUBREC cannot say so: the id stays in use until PUBREL *)
-                    if q = 2 && (c < 128 || s.ver <> 5) && not (List.mem pid s.q2) then s.q2 <- pid :: s.q2;
+                    if q = 2 && (c < 128 || s.ver <> 5) then q2_add s.cid pid;
                     check_ack (fun g -> g = c) (string_of_int c)
                   end
                 | Model.MDrop ->
                   hit "Md"; if would () then hit "Md+"; if m.mr then hit "MdR";
                   if mutant = 3 then go m else begin
-                    if q = 2 && not (List.mem pid s.q2) then s.q2 <- pid :: s.q2;
+                    if q = 2 then q2_add s.cid pid;
                     check_ack (fun c -> c = 0 || c = 16) "0 or 16"
                   end
                 | Model.MRewrite (t', p', q') ->
@@ -435,7 +442,7 @@ let oracle_run (cfg : Model.cfg) (hooks : Model.hooks) (steps : Sexp.t list)
                   go (if mutant = 4 then m else m')
                 | Model.MAccept -> hit "Ma"; go m)
              end
-           | [Sexp.A "pubrel"; pid; _; _] -> s.q2 <- List.filter (fun p -> p <> int_of_sx pid) s.q2
+           | [Sexp.A "pubrel"; pid; _; _] -> Hashtbl.replace q2tbl s.cid (List.filter (fun p -> p <> int_of_sx pid) (q2_of s.cid))
            | [Sexp.A "pingreq"] -> ()
            | _ -> raise (Oof "packet kind")))
      | [Sexp.A "close"; c] ->
